@@ -59,7 +59,7 @@ pub fn abscissa_lists(thorough: bool) -> Vec<Vec<f64>> {
 pub fn pick_ordinates(cx: &mut Cx, xs: &[f64]) -> (Vec<f64>, &'static str) {
     let n = xs.len();
     let fam = cx.choose(2);
-    let scale = [1.0, 1e-3, 1e6][cx.choose(3)];
+    let scale = [1.0, 1e-3, 1e6, 8.673617379884035e-19][cx.choose(4)];
     if fam == 0 {
         ((0..n).map(|_| *cx.pick(&Y_ALPHA) * scale).collect(), "alphabet")
     } else {
